@@ -28,6 +28,7 @@ type c16case struct {
 	versions  string // PLUGIN_PROTOCOL_VERSIONS; "" = the default "1,2", "\x00" = unset
 	slowInit  bool   // the plugin's registration hook takes 5.5 s (gRPC only)
 	dirName   string // name of the socket / temp directory the host hands to the plugin ("" = a plain name)
+	chatter   bool   // plugin code prints to os.Stdout / os.Stderr by itself as soon as it is being served
 }
 
 func (c c16case) String() string {
@@ -47,6 +48,9 @@ func (c c16case) String() string {
 	if c.dirName != "" {
 		s += fmt.Sprintf(" socket-dir-name=%q", c.dirName)
 	}
+	if c.chatter {
+		s += " plugin-prints-to-its-stdout"
+	}
 	return s
 }
 
@@ -63,7 +67,7 @@ func TestC16(t *testing.T) {
 				for _, tl := range []string{"none", "provider", "clientcert"} {
 					for _, vd := range []bool{false, true} {
 						for _, mx := range []string{"\x00", "", "true", "false", "1", "junk"} {
-							cases = append(cases, c16case{ck, kv[0], kv[1], proto, tl, vd, mx, "", false, ""})
+							cases = append(cases, c16case{ck, kv[0], kv[1], proto, tl, vd, mx, "", false, "", false})
 						}
 					}
 				}
@@ -76,7 +80,7 @@ func TestC16(t *testing.T) {
 		for _, proto := range []string{"netrpc", "grpc"} {
 			for _, vd := range []bool{false, true} {
 				for _, mx := range []string{"\x00", "true"} {
-					cases = append(cases, c16case{cookieVal, cookieKey, cookieVal, proto, "none", vd, mx, vl, false, ""})
+					cases = append(cases, c16case{cookieVal, cookieKey, cookieVal, proto, "none", vd, mx, vl, false, "", false})
 				}
 			}
 		}
@@ -84,14 +88,14 @@ func TestC16(t *testing.T) {
 	// a TLSProvider that fails: without the right cookie the binary still refuses (status 1, nothing printed)
 	for _, ck := range []string{"\x00", "", cookieVal[:4], cookieVal + " ", strings.ToUpper(cookieVal), "other"} {
 		for _, proto := range []string{"netrpc", "grpc"} {
-			cases = append(cases, c16case{ck, cookieKey, cookieVal, proto, "provider-fail", false, "\x00", "", false, ""})
+			cases = append(cases, c16case{ck, cookieKey, cookieVal, proto, "provider-fail", false, "\x00", "", false, "", false})
 		}
 	}
 	// a plugin whose start-up work takes longer than any internal timer of go-plugin: the line still comes with
 	// a listener that accepts
 	for _, tl := range []string{"none", "clientcert"} {
 		for _, mx := range []string{"\x00", "true", "false"} {
-			cases = append(cases, c16case{cookieVal, cookieKey, cookieVal, "grpc", tl, false, mx, "", true, ""})
+			cases = append(cases, c16case{cookieVal, cookieKey, cookieVal, "grpc", tl, false, mx, "", true, "", false})
 		}
 	}
 	// socket directories whose names contain characters that mean something to a formatter or a shell
@@ -99,6 +103,15 @@ func TestC16(t *testing.T) {
 		for _, proto := range []string{"netrpc", "grpc"} {
 			for _, mx := range []string{"\x00", "true"} {
 				cases = append(cases, c16case{cookie: cookieVal, cfgKey: cookieKey, cfgVal: cookieVal, proto: proto, tls: "none", mux: mx, dirName: dn})
+			}
+		}
+	}
+	// plugin code that prints to its own stdout / stderr right after serving began: that output belongs to the sync
+	// streams, the real stdout still carries the handshake line only
+	for _, proto := range []string{"netrpc", "grpc"} {
+		for _, mx := range []string{"\x00", "true"} {
+			for _, tl := range []string{"none", "clientcert"} {
+				cases = append(cases, c16case{cookie: cookieVal, cfgKey: cookieKey, cfgVal: cookieVal, proto: proto, tls: tl, mux: mx, chatter: true})
 			}
 		}
 	}
@@ -133,6 +146,7 @@ func TestC16(t *testing.T) {
 			if c.slowInit {
 				pc.InitDelayMs = 5500
 			}
+			pc.Chatter = c.chatter
 			pj, _ := json.Marshal(pc)
 			cmd := exec.Command(vp)
 			cmd.Env = []string{"VP_CONF=" + string(pj), "TMPDIR=" + dir, "PLUGIN_UNIX_SOCKET_DIR=" + dir}
@@ -271,6 +285,9 @@ func TestC16(t *testing.T) {
 							}
 						}
 						time.Sleep(150 * time.Millisecond)
+						if c.chatter {
+							time.Sleep(450 * time.Millisecond)
+						}
 					}
 					cmd.Process.Kill()
 					<-waitCh
